@@ -125,17 +125,22 @@ def s3(d: str, lazy: bool = False) -> str:
     write_global_config(d, log_stats=True, lazy=lazy)
     vehicles = [
         {"id": "h1", "cell": S["N1"], "soc": 0.5, "schedule_id": "early", "home_base_id": "hb1"},
-        {"id": "h2", "cell": S["N2"], "soc": 0.5, "schedule_id": "late", "home_base_id": "hb2"},
+        {"id": "h2", "cell": S["N2"], "soc": 0.5, "schedule_id": "late", "home_base_id": "hb3"},  # (a home base is private to ONE driver)
         {"id": "h3", "cell": S["N3"], "soc": 0.5, "schedule_id": "early", "home_base_id": "hb2"},
         # autonomous vehicles at equal distance from the one-stall base b1: time out in the same step
         {"id": "a1", "cell": S["X1"], "soc": 0.5},
         {"id": "a2", "cell": S["X2"], "soc": 0.5},
         {"id": "a3", "cell": S["X3"], "soc": 0.5},
     ]
-    bases = [("hb1", S["M1"], "hbs1", 1), ("hb2", S["M2"], None, 2), ("b1", S["A"], "bs1", 2)]
+    bases = [("hb1", S["M1"], "hbs1", 1), ("hb2", S["M2"], None, 2), ("hb3", S["X2"], None, 1), ("b1", S["A"], "bs1", 2)]
     stations = [("hbs1", S["M1"], "LEVEL_2", 1, False), ("bs1", S["A"], "LEVEL_2", 1, False), ("s0", S["N1"], "DCFC", 1, True)]
     schedules = [("early", "00:02:00", "00:12:00"), ("late", "00:06:00", "00:20:00")]
     reqs = [(f"r{k}", S["A"] if k % 2 else S["N1"], S["M2"] if k % 3 else S["X1"], 60 * k + 20, 1) for k in range(2, 20, 2)]
+    # single customers waiting at the same time in different search cells (sites F*, X* and the centre lie in three cells): the
+    # human drivers' "go where the demand is" choice meets a tie between cells
+    # (they enter in the very steps in which the early / late shifts begin, when the drivers sit at home and look for work)
+    reqs += [("q1", S["F1"], S["M1"], 100, 1), ("q3", S["X3"], S["M1"], 100, 1), ("q4", S["F2"], S["M1"], 340, 1), ("q5", S["X2"], S["M2"], 340, 1)]
+    reqs.sort(key=lambda r: r[3])
     prices = [(0, "s0", "DCFC", 0.291), (0, "bs1", "LEVEL_2", 0.137), (0, "hbs1", "LEVEL_2", 0.05), (600, "s0", "DCFC", 0.402)]
     return write_scenario(
         d, "s3", start=0, end=2100, step=60, cancel=240, vehicles=vehicles, requests=reqs,
